@@ -52,8 +52,10 @@ type c13Input struct {
 	Auto    bool     `json:"auto_detected"` // DecoderFor instead of the explicit constructor
 	Chunk   c08Chunk `json:"chunking"`
 	Flaky   []int    `json:"transient_error_before_record,omitempty"`
+	Broken  int      `json:"fails_for_good_after_records,omitempty"` // > 0: after this many records the input's decoder fails with an I/O error, for good
 	Records [][]any  `json:"records"`
 	recs    []vegeta.Result
+	polls   *int // how often this input was polled after it broke, since the harness last reset the count
 }
 
 type c13Witness struct {
@@ -69,6 +71,13 @@ type c13Witness struct {
 }
 
 var c13ErrTransient = errors.New("harness: transient error")
+
+// c13ErrBroken is what a broken input (I/O error) keeps returning; the input counts how often it
+// was polled since the harness last reset the count: the combined decoder polls each of its
+// inputs at most once per call.
+var c13ErrBroken = errors.New("harness: read error (the input is broken for good)")
+
+const c13LoopPanic = "harness: one Decode call of the combined decoder polled a broken input more than 10000 times"
 
 // c13Tag marks a record with its input and its index inside the input.
 func c13Tag(r *vegeta.Result, input, idx int) {
@@ -129,6 +138,10 @@ func c13GenCase(r *rand.Rand, flaky bool) ([]c13Input, error) {
 			}
 			sort.Ints(in.Flaky)
 		}
+		if flaky && n > 0 && k >= 2 && j == k-1 && r.Intn(3) == 0 {
+			in.Broken = 1 + r.Intn(n) // the last input breaks after 1..n of its records
+			in.Flaky = nil
+		}
 	}
 	return ins, nil
 }
@@ -148,6 +161,24 @@ func c13Open(in *c13Input) (vegeta.Decoder, string) {
 		}
 	} else {
 		dec = codecNewDecoder(in.Codec, rd)
+	}
+	if in.Broken > 0 {
+		inner, delivered := dec, 0
+		dec = func(r *vegeta.Result) error {
+			if delivered >= in.Broken {
+				if in.polls != nil {
+					if *in.polls++; *in.polls > 10000 {
+						panic(c13LoopPanic)
+					}
+				}
+				return c13ErrBroken
+			}
+			err := inner.Decode(r)
+			if err == nil {
+				delivered++
+			}
+			return err
+		}
 	}
 	if len(in.Flaky) == 0 {
 		return dec, ""
@@ -185,16 +216,30 @@ var c13TagRe = regexp.MustCompile(`^in(\d+)$`)
 
 func c13RunRR(run *ev.Run, cc codecCounts, ins []c13Input) {
 	flaky := false
+	broken := false
 	total := 0
 	for j := range ins {
 		if len(ins[j].Flaky) > 0 {
 			flaky = true
+		}
+		if ins[j].Broken > 0 {
+			// what lies behind the point of failure cannot be read; everything else must be
+			flaky, broken = true, true
+			total += min(ins[j].Broken, len(ins[j].recs))
+			continue
 		}
 		total += len(ins[j].recs)
 	}
 	kind := "clean"
 	if flaky {
 		kind = "transient-errors"
+	}
+	if broken {
+		kind = "broken-input"
+	}
+	brokenPolls := 0
+	for j := range ins {
+		ins[j].polls = &brokenPolls
 	}
 	viol := func(class, msg string, diffs []codecFieldDiff) {
 		w := c13Witness{Kind: "rr", Class: class, Message: msg, Diffs: diffs}
@@ -236,9 +281,14 @@ func c13RunRR(run *ev.Run, cc codecCounts, ins []c13Input) {
 	calls := 0
 	for calls < total+10*len(ins)+20 {
 		var r vegeta.Result
+		brokenPolls = 0
 		err, pan := codecSafeDecode(rr, &r)
 		calls++
 		cc["rr_decode_calls"]++
+		if pan != nil && fmt.Sprint(pan) == c13LoopPanic {
+			viol("decode-call-loops", fmt.Sprintf("after %d records one Decode call of the combined decoder polled the broken input more than 10000 times without returning", returned), nil)
+			return
+		}
 		if pan != nil {
 			viol("panic", fmt.Sprintf("Decode panicked after %d records: %v", returned, pan), nil)
 			return
@@ -265,6 +315,10 @@ func c13RunRR(run *ev.Run, cc codecCounts, ins []c13Input) {
 			viol("unknown-record", fmt.Sprintf("record of input %d, but there are %d inputs", j, len(ins)), nil)
 			return
 		}
+		if ins[j].Broken > 0 && nextIdx[j] >= ins[j].Broken {
+			viol("unknown-record", fmt.Sprintf("input %d broke after %d records, yet its record %d was returned", j, ins[j].Broken, r.Seq), nil)
+			return
+		}
 		if nextIdx[j] >= len(ins[j].recs) || r.Seq != uint64(nextIdx[j]) {
 			class := "reordered"
 			if r.Seq < uint64(nextIdx[j]) {
@@ -286,7 +340,11 @@ func c13RunRR(run *ev.Run, cc codecCounts, ins []c13Input) {
 	if returned < total {
 		missing := []string{}
 		for j := range ins {
-			if nextIdx[j] < len(ins[j].recs) {
+			if lim := len(ins[j].recs); ins[j].Broken > 0 && ins[j].Broken < lim {
+				if nextIdx[j] < ins[j].Broken {
+					missing = append(missing, fmt.Sprintf("input %d: %d of the %d before it broke", j, nextIdx[j], ins[j].Broken))
+				}
+			} else if nextIdx[j] < len(ins[j].recs) {
 				missing = append(missing, fmt.Sprintf("input %d: %d of %d", j, nextIdx[j], len(ins[j].recs)))
 			}
 		}
